@@ -722,9 +722,14 @@ def run_c12(tier):
     check.rule = (CFG_RULE.format(n=3 if tier == "quick" else 4) + " (structural clauses: keys 0..n-1, contiguous blocks, atom "
                   "names); plus every call history of ResolverAPI.tla up to the bound (three constructors, three drivers, "
                   "objects sharing fragment-library objects, permuted fragment definitions) replayed in fresh processes under "
-                  "several PYTHONHASHSEED values and compared digest-by-digest with a fresh-process reference; non-trivial = "
+                  "several PYTHONHASHSEED values and compared digest-by-digest with a fresh-process reference; plus every behaviour of "
+                  "GraphOps.tla (merge / bond / squash / sort / annotate / names, <= 5-6 calls) replayed into graph_utils and "
+                  "squash_atoms (X_GraphOps_*); non-trivial = "
                   "more than one coarse node / history of more than two events")
     run_c12_structural(check, tier)
+    # beyond the listed clauses: the graph bookkeeping itself, spec -> code (GraphOps.tla)
+    from . import graphops
+    graphops.run_graphops(check, tier)
     from . import history
     history.run_histories(check, tier, ["X_Behaviour", "C12_Function", "C12_LibraryUntouched"])
     return check.finish()
